@@ -125,7 +125,7 @@ Ascii(s) == \A i \in 1..Len(s) : s[i] \in 32..126
 ObisOk(o) == Len(o) = 6 /\ \A i \in 1..6 : o[i] \in 0..255
 ElemOk(m, el) ==
    /\ (el.t = "u32" => el.hi \in 0..65535 /\ el.lo \in 0..65535) /\ (el.t \in {"i16", "u16"} => el.lo \in 0..65535)
-   /\ (el.t \in {"vstr", "ostr"} => Ascii(el.s) /\ Len(el.s) \in 1..40)
+   /\ (el.t \in {"vstr", "ostr"} => Len(el.s) \in 1..40 /\ (IF m.meter = "aidon" THEN \A i \in 1..Len(el.s) : el.s[i] \in 0..127 ELSE Ascii(el.s)))
    /\ (el.t = "dt" => DtInDomain(el.dt))
    /\ (m.meter = "aidon" => ObisOk(el.obis) /\ el.t \in {"u32", "i16", "u16", "vstr", "dt"} /\ (IsNumT(el.t) => el.exp \in -3..3 /\ el.unit \in {27, 29, 30, 32, 33, 35}))
    /\ (m.meter = "kaifa" => /\ el.t \in {"u32", "ostr", "dt"}
